@@ -423,6 +423,7 @@ func init() {
 			{ID: "C04-tree", Floor: 9, Run: func(c *core.Ctx) { storeRule(c, "C04-tree") }, Text: "(shared with C08-store) node storage tolerates rows left by a dropped fork without skipping the rest of the branch"},
 			{ID: "C04-resume", Floor: 3, Run: shared("C04-resume", c05Restart), Text: "(shared with C05-restart) after a reorg the download restarts at lastProcessed+1, whatever block the detector named"},
 			{ID: "C04-cascade", Floor: 13, Run: c04Cascade, Text: "[SCHEMA] every per-block table cascades from block(num); tree tables accounted"},
+			{ID: "C04-rewind", Floor: 5, Run: shared("C04-rewind", c06Rewind), Text: "(shared with C06-rewind/C06-value) the driver acknowledges a reorg only after Reorg returned nil and passes the notified block unchanged"},
 			{ID: "C04-fk", Floor: 4, Run: c04FK, Text: "[WHO]+const: single sql.Open with _foreign_keys=on; stores use it"},
 			{ID: "C04-trees", Floor: 6, Run: c04Trees, Text: "[WHO]+[PROV]+[DOM] every tree field rewound with (tx, firstReorgedBlock) before Commit; block delete bound to it"},
 			{ID: "C04-destructive", Floor: 15, Run: c04Destructive, Text: "[WHO] block processing only inserts; a DELETE/UPDATE in the ProcessBlock cone is not undone by a reorg (2 known findings)"},
